@@ -14,7 +14,8 @@ func seedsOf(names ...string) func(env *world.Env) []explore.SeedState {
 	return func(env *world.Env) []explore.SeedState {
 		var out []explore.SeedState
 		for _, n := range names {
-			out = append(out, explore.SeedState{Name: n, W: uni.Seed(env, n)})
+			b := uni.SeedBuilder(env, n)
+			out = append(out, explore.SeedState{Name: n, W: b.W, Legs: b.Legs, Failed: b.Failed})
 		}
 		return out
 	}
@@ -106,6 +107,9 @@ func RunLedger(property string, tier Tier, profiles []*explore.Profile, require 
 		legs += r.Legs
 		if !r.Exhaustive {
 			exhaustive = false
+		}
+		for _, sf := range r.SeedFailures {
+			o.SelfCheck = append(o.SelfCheck, "profile "+p.Name+": seed "+sf)
 		}
 		MergeClasses(classes, r.Classes)
 		o.Violations = append(o.Violations, FromExplore(r.Violations)...)
